@@ -107,7 +107,8 @@ PROPS = {
         kani=[dict(name=n, fn='compile::extend_to_bits', label='complete-for-this-width-pair', thorough_only=t,
                    bound='symbolic wire values and signedness, widening ' + n.split('_', 2)[2].replace('_', ' -> ') + ' bits, loops fully unrolled')
               for n, t in [('c03_extend_8_32', False), ('c03_extend_1_8', False), ('c03_extend_8_16', True), ('c03_extend_8_64', True),
-                           ('c03_extend_16_32', True), ('c03_extend_16_64', True), ('c03_extend_32_64', True)]],
+                           ('c03_extend_16_32', True), ('c03_extend_16_64', True), ('c03_extend_32_64', True),
+                           ('c03_extend_1_16', True), ('c03_extend_1_32', True), ('c03_extend_1_64', True)]],
         witness=['c03', '--random', '3000'],
         witness_thorough=['c03', '--exhaustive8', '--random', '40000', '--consts', '12'],
         level='proof',
